@@ -90,6 +90,7 @@ package certs
 //@ func (name *Name) WriteTo(w io.Writer) (n int64, err error)
 //@   property C18
 //@   modifies spos
+//@   ensures 0 <= n && n <= 255
 //@   ensures err == nil ==> len(name.Label) <= 252
 //@   ensures len(name.Label) > 252 ==> err != nil && !called(io.Writer.Write)
 // The wire form of a name in the byte-stream model (prelude): block size (label length + 3), type, label length, label.
@@ -100,6 +101,7 @@ package certs
 //@ func (name *Name) ReadFrom(r io.Reader) (n int64, err error)
 //@   property C18
 //@   modifies name.Type, name.Label, spos
+//@   ensures 0 <= n && n <= 258
 //@   ensures err == nil ==> n == 3 + int64(len(name.Label)) && spos == update(old(spos), ref(r), old(spos)[ref(r)] + 3 + len(name.Label))
 //@   ensures err == nil ==> nameAt(ref(r), old(spos)[ref(r)], name) && int(sbyte(ref(r), old(spos)[ref(r)])) >= len(name.Label) + 3 && len(name.Label) <= 252
 // (the label is a newly allocated byte slice)
@@ -108,12 +110,28 @@ package certs
 // An id chunk is emitted only if it serialises to at most 512 bytes ...
 //@ func (chunk *IDChunk) WriteTo(w io.Writer) (n int64, err error)
 //@   property C18
+//@   modifies spos
 //@   ensures err == nil ==> resultof(certs.IDChunk.SerializedLen, n) <= 512
+// (byte-stream model) the chunk starts with its announced length and the cursor moves by exactly the count returned
+//@   ensures 0 <= n && n <= 36028797018963968
+//@   ensures err == nil ==> n >= 2 && spos == update(old(spos), ref(w), old(spos)[ref(w)] + int(n))
+//@   ensures err == nil ==> be16(sbyte(ref(w), old(spos)[ref(w)]), sbyte(ref(w), old(spos)[ref(w)] + 1)) == uint16(resultof(certs.IDChunk.SerializedLen, n))
+//@   loop 1
+//@     invariant written >= 2 && rangeindex < len(chunk.Blocks) && written <= 2 + 255 * (int64(rangeindex) + 1) && spos == update(old(spos), ref(w), old(spos)[ref(w)] + int(written))
+//@     invariant be16(sbyte(ref(w), old(spos)[ref(w)]), sbyte(ref(w), old(spos)[ref(w)] + 1)) == uint16(resultof(certs.IDChunk.SerializedLen, n))
 // ... and the decoder accepts every announced length from 2 to 512: with such a length it does not take the
 // invalid-length return (which is the only error return before the first name is read)
 //@ func (chunk *IDChunk) ReadFrom(r io.Reader) (n int64, err error)
 //@   property C18 C11
+//@   modifies chunk.Blocks, chunk.Blocks[:], spos
 //@   after binary.Read let announced = chunkLen
+// (byte-stream model) the announced length is the big-endian 16-bit number at the cursor; the cursor moves by the count returned
+//@   ensures 0 <= n && n <= 1300
+//@   ensures err == nil ==> n >= 2 && spos == update(old(spos), ref(r), old(spos)[ref(r)] + int(n))
+//@   ensures err == nil ==> be16(sbyte(ref(r), old(spos)[ref(r)]), sbyte(ref(r), old(spos)[ref(r)] + 1)) == announced
+//@   loop 1
+//@     invariant bytesRead >= 2 && blockBytesRead >= 0 && blockBytesRead < 1024 && bytesRead == 2 + blockBytesRead && blockLen == chunkLen - 2 && chunkLen <= 512 && spos == update(old(spos), ref(r), old(spos)[ref(r)] + int(bytesRead))
+//@     invariant be16(sbyte(ref(r), old(spos)[ref(r)]), sbyte(ref(r), old(spos)[ref(r)] + 1)) == chunkLen
 //@   ensures callcount(binary.Read) == 1 && resultof(binary.Read, err) == nil && 2 <= announced && announced <= 512 && !called(certs.Name.ReadFrom) ==> err == nil
 //@   ensures err == nil ==> 2 <= announced && announced <= 512
 //@ func (chunk *IDChunk) SerializedLen() (n int)
@@ -124,14 +142,51 @@ package certs
 //@   modifies *
 // (the contract of io.Writer.Write is in the prelude: byte-stream model)
 
-// Certificates as a whole: the byte-level layout of the certificate codec is NOT specified (its decoder reads through
-// two io.TeeReaders and an id-chunk loop); assumed here is only that either function moves the stream cursor by exactly
-// the byte count it returns and, for the decoder, that it changes nothing but the certificate it fills.
+// Certificates: from the cursor p - version (1), type (1), two reserved zero bytes, issue and expiry time (8 + 8, Unix
+// seconds, big-endian), public key (32), parent fingerprint (32), the id chunk (its own codec, L bytes), signature (64).
+// Encoder and decoder are proved against this one layout; the id chunk's interior (a loop over names) is only
+// specified as far as IDChunk's contracts go (announced length, cursor movement).
+//@ macro certHead(s, p, c) = sbyte(s, p) == c.Version && sbyte(s, p + 1) == uint8(c.Type) &&
+//@        be64at(s, p + 4) == uint64(unixOf(c.IssuedAt)) && be64at(s, p + 12) == uint64(unixOf(c.ExpiresAt))
+//@ macro certKeys(s, p, c) = srange(s, p + 20, 32) == bytes(c.PublicKey) && srange(s, p + 52, 32) == bytes(c.Parent)
 //@ func (c *Certificate) WriteTo(w io.Writer) (n int64, err error)
-//@   assume certificate encoding (layout not specified): advances the writer's cursor by the count returned
+//@   property C18
 //@   modifies spos
-//@   ensures n >= 0 && (err == nil ==> spos == update(old(spos), ref(w), old(spos)[ref(w)] + int(n)))
+//@   let p = spos[ref(w)]
+//@   after certs.IDChunk.WriteTo let wChunkEnd = spos[ref(w)]
+//@   ensures n >= 0
+//@   ensures err == nil ==> sbyte(ref(w), p) == c.Version && sbyte(ref(w), p + 1) == uint8(c.Type) && sbyte(ref(w), p + 2) == 0 && sbyte(ref(w), p + 3) == 0
+//@   ensures err == nil ==> be64at(ref(w), p + 4) == uint64(unixOf(c.IssuedAt))
+//@   ensures err == nil ==> be64at(ref(w), p + 12) == uint64(unixOf(c.ExpiresAt))
+//@   ensures err == nil ==> srange(ref(w), p + 20, 32) == bytes(c.PublicKey)
+//@   ensures err == nil ==> srange(ref(w), p + 52, 32) == bytes(c.Parent)
+//@   ensures err == nil ==> callcount(certs.IDChunk.WriteTo) == 1
+//@   ensures err == nil ==> argof(certs.IDChunk.WriteTo, chunk) == &c.IDChunk
+//@   ensures err == nil ==> wChunkEnd - int(resultof(certs.IDChunk.WriteTo, n)) == p + 84
+//@   ensures err == nil ==> srange(ref(w), wChunkEnd, 64) == bytes(c.Signature)
+//@   ensures err == nil ==> n == 148 + resultof(certs.IDChunk.WriteTo, n)
+//@   ensures err == nil ==> spos == update(old(spos), ref(w), old(spos)[ref(w)] + int(n))
+// MODEL of io.TeeReader: the tee reader is identified with its source reader (a read through it is a read of the source,
+// same cursor).  What it copies into its writer (the raw-bytes buffer, the fingerprint hash) is not modelled: nothing
+// is claimed about c.raw or c.Fingerprint here (C04 treats the raw bytes and the fingerprint separately).
+//@ func io.TeeReader(r io.Reader, w io.Writer) (t io.Reader)
+//@   assume standard library, modelled as the identity on the reader (see above)
+//@   pure
+//@   ensures same(t, r)
 //@ func (c *Certificate) ReadFrom(r io.Reader) (n int64, err error)
-//@   assume certificate decoding (layout not specified; C11 covers its safety): advances the reader's cursor by the count returned; changes only the certificate it fills
+//@   property C18
 //@   modifies *c, spos
-//@   ensures n >= 0 && (err == nil ==> spos == update(old(spos), ref(r), old(spos)[ref(r)] + int(n)))
+//@   let p = spos[ref(r)]
+//@   after certs.IDChunk.ReadFrom let rChunkEnd = spos[ref(r)]
+//@   ensures n >= 0
+//@   ensures err == nil ==> sbyte(ref(r), p) == c.Version && sbyte(ref(r), p + 1) == uint8(c.Type)
+//@   ensures err == nil ==> be64at(ref(r), p + 4) == uint64(unixOf(c.IssuedAt))
+//@   ensures err == nil ==> be64at(ref(r), p + 12) == uint64(unixOf(c.ExpiresAt))
+//@   ensures err == nil ==> srange(ref(r), p + 20, 32) == bytes(c.PublicKey)
+//@   ensures err == nil ==> srange(ref(r), p + 52, 32) == bytes(c.Parent)
+//@   ensures err == nil ==> callcount(certs.IDChunk.ReadFrom) == 1
+//@   ensures err == nil ==> argof(certs.IDChunk.ReadFrom, chunk) == &c.IDChunk
+//@   ensures err == nil ==> rChunkEnd - int(resultof(certs.IDChunk.ReadFrom, n)) == p + 84
+//@   ensures err == nil ==> srange(ref(r), rChunkEnd, 64) == bytes(c.Signature)
+//@   ensures err == nil ==> n == 148 + resultof(certs.IDChunk.ReadFrom, n)
+//@   ensures err == nil ==> spos == update(old(spos), ref(r), old(spos)[ref(r)] + int(n))
